@@ -473,9 +473,10 @@ theorem merge_jar_kind_mismatch_witness :
     mergeJar [(jstr "a", { attr := 0, content := Content.dir })] [(jstr "a", { attr := 0, content := Content.other [1] })] =
       Outcome.err := by decide
 
-/-- the code's signature-file rule does not cover `.DSA` / `.EC` signature blocks: they are kept -/
-theorem sig_rule_witness : isSig (jstr "META-INF/MOJANG.SF") = true ∧ isSig (jstr "META-INF/MOJANG.RSA") = true ∧
-    isSig (jstr "META-INF/MOJANG.DSA") = false ∧ isSig (jstr "META-INF/MOJANG.EC") = false ∧
+/-- the signature-file rule: `META-INF/*.SF` and the signature block files `.RSA`, `.DSA`, `.EC` (the last two since 6bf1276;
+before, `.DSA` / `.EC` blocks were kept without their `.SF` file); only below `META-INF/` -/
+theorem sig_rule : isSig (jstr "META-INF/MOJANG.SF") = true ∧ isSig (jstr "META-INF/MOJANG.RSA") = true ∧
+    isSig (jstr "META-INF/MOJANG.DSA") = true ∧ isSig (jstr "META-INF/MOJANG.EC") = true ∧
     isSig (jstr "other/X.SF") = false := by decide
 
 example : jarDomain
